@@ -35,6 +35,9 @@ CLAIMS = {
  "C12": ("path-sensitive linear bounds prover over SSA (index/slice/make obligations) with overflow side conditions, second pass GOARCH=386 in the thorough tier",
          "Decides the decoding half: every index and slice expression of the length-encoded decoders in mysql/encoding.go is proven in bounds from dominating comparisons for all inputs (any data, any pos >= 0, any size). The round-trip half is value equality and not covered.",
          "Preconditions 0 <= pos <= 2^62 and len(data) <= 2^62; prover is sound but incomplete (unproven = reported).", "§4 C12"),
+ "C14": ("def-use provenance of CalcParams' results (offsets = result of a package-parser function, count = len of it, pieces cut at its elements) + edge dominance in that function (append only on token == paramMarker of a (*Scanner).scan result, recording that token's position) + constant agreement with the lexer's byte table (initTokenByte('?', paramMarker)) + nil-error dominance in handleStmtPrepare",
+         "Agreement by construction: the placeholders reported are the parameter-marker tokens of the lexer the SQL grammar itself reads, so string literals, quoted identifiers and comments are handled exactly as the grammar handles them. A private scanner in CalcParams is reported. What the lexer accepts (its own correctness, sql_mode dependent lexing such as ANSI_QUOTES) is not examined; markers inside /*! */ version comments are refused by the code.",
+         "", "§9 C14"),
  "C15": ("writer/reader table agreement (dynamic types stored into Stmt.args vs the type switch of util.ItoString, read from SSA) + def-use and phi-edge analysis of the placeholder splice in GetRewriteSQL (escapeSQL(ItoString(arg)) on every path, quotes exactly on the quote edge) + constant agreement (escaped byte set contains the wrapping quote and the backslash, in both sql_mode branches) + data dependence of the escaping on the session's sql_mode from handleStmtExecute + def-use of the executed text",
          "Decides the shape of the splice only: no byte-carrying value is bound under a type the renderer leaves bare; everything written for a placeholder went through the escaping; the escaping covers the character the literal is wrapped in; the escaping depends on the session's sql_mode (which the client can change through the pass-through SET); the text executed is the rewritten one. NOT decided: that the produced literal denotes exactly the bound bytes (value-level: multi-byte character sets, NUL bytes, float formatting, NaN/Inf), nor backend-global sql_mode the proxy cannot see.",
          "", "§9 C15"),
@@ -103,7 +106,6 @@ NA = {
  "C02": "Result-multiset equivalence over data and queries; no structural necessary condition beyond what the type system enforces.",
  "C08": "Numerical equality with a Java reference implementation (UTF-16 code units, 32-bit wraparound).",
  "C13": "Value equality per column type between text and binary protocol rows.",
- "C14": "Agreement of the hand-written placeholder scanner with the SQL lexer over all texts (language equivalence over inputs).",
  "C36": "Metamorphic equality of the fingerprint over statement variants is a property of string transformations.",
 }
 
